@@ -255,6 +255,14 @@ func (ds *dataSet) TruncateGap() (*dataSetRdb, []*dataSetAof) {
 		}
 	}
 
+	// the rdb is only replayable into the aof segments if they start where it ends;
+	// an rdb left behind in front of a hole (e.g. a removal that was interrupted) is
+	// older data separated from the newest data by a gap as well
+	if ds.rdb != nil && len(ds.aofSegs) > 0 && ds.aofSegs[0].Left() != ds.rdb.Left() {
+		rdb = ds.rdb
+		ds.rdb = nil
+	}
+
 	ds.aofMap = make(map[int64]*dataSetAof)
 	for _, a := range ds.aofSegs {
 		ds.aofMap[a.left] = a
